@@ -427,6 +427,70 @@ impl H {
                     Err(k) => println!("R panic {k}"),
                 }
             }
+            // registrations through the descriptor API without a TypeId (C16): the model sees them as
+            // registrations of a type tag 1000+n that is used once per history
+            "addgeu" => {
+                let _n = t.int();
+                match self.guarded(|w| unsafe {
+                    w.add_global_event_with_descriptor(evenio::event::EventDescriptor {
+                        name: "untyped".into(),
+                        type_id: None,
+                        kind: evenio::event::EventKind::Normal,
+                        layout: std::alloc::Layout::new::<u32>(),
+                        drop: None,
+                        mutability: evenio::mutability::Mutability::Mutable,
+                    })
+                }) {
+                    Ok(id) => {
+                        if !self.geids.contains(&id) {
+                            self.geids.push(id);
+                        }
+                        println!("R id {}", skey(id.index().0, id.generation()));
+                    }
+                    Err(k) => println!("R panic {k}"),
+                }
+            }
+            "addteu" => {
+                let _n = t.int();
+                match self.guarded(|w| unsafe {
+                    w.add_targeted_event_with_descriptor(evenio::event::EventDescriptor {
+                        name: "untyped".into(),
+                        type_id: None,
+                        kind: evenio::event::EventKind::Normal,
+                        layout: std::alloc::Layout::new::<u32>(),
+                        drop: None,
+                        mutability: evenio::mutability::Mutability::Mutable,
+                    })
+                }) {
+                    Ok(id) => {
+                        if !self.teids.contains(&id) {
+                            self.teids.push(id);
+                        }
+                        println!("R id {}", skey(id.index().0, id.generation()));
+                    }
+                    Err(k) => println!("R panic {k}"),
+                }
+            }
+            "addcu" => {
+                let _n = t.int();
+                match self.guarded(|w| unsafe {
+                    w.add_component_with_descriptor(evenio::component::ComponentDescriptor {
+                        name: "untyped".into(),
+                        type_id: None,
+                        layout: std::alloc::Layout::new::<u32>(),
+                        drop: None,
+                        mutability: evenio::mutability::Mutability::Mutable,
+                    })
+                }) {
+                    Ok(id) => {
+                        if !self.cids.contains(&id) {
+                            self.cids.push(id);
+                        }
+                        println!("R id {}", skey(id.index().0, id.generation()));
+                    }
+                    Err(k) => println!("R panic {k}"),
+                }
+            }
             "rmge" => {
                 let j = t.int() as usize;
                 if self.geids.is_empty() {
